@@ -181,12 +181,19 @@ func c04Body(x *mc.Exec) {
 	var err error
 	var first []byte
 	p := Try(func() {
+		// the same Document object was marshaled before with everything selected and all relationship
+		// data asked for (another request for the same data): nothing of that may stick to it
+		everything := map[string][]string{"t": {"a", "ab", "one", "ones"}, "u": {"a", "b", "one", "r"}}
+		doc.RelData = map[string][]string{"t": {"one", "ones"}, "u": {"r", "one"}}
+		_, _ = j.MarshalDocument(doc, &j.URL{Fragments: frag, ResType: frag[0], IsCol: len(frag) == 1,
+			Params: &j.Params{Fields: everything, RelData: map[string][]string{}}})
+		doc.RelData = relData
 		first, err = j.MarshalDocument(doc, url)
 		if err == nil {
 			out, err = j.MarshalDocument(doc, url)
 		}
 	})
-	x.R.Add("transitions", 2)
+	x.R.Add("transitions", 3)
 	x.Observe(string(out), p)
 	if p != "" {
 		x.Fail("C04:panic", "MarshalDocument panicked (%s): %s", desc, p)
@@ -466,7 +473,7 @@ func c04Wide(x *mc.Exec) {
 func init() {
 	Register(&Prop{
 		ID: "C04",
-		Rule: "Engine A, all choices Full, complete product: {soft,struct} x 22 selections for type t (all 16 subsets of its 4 fields, unknown name, 'id', duplicates, no entry, nil map, unknown names differing from real ones by case only) x 6 relationship-data requests (4 subsets, unknown name, entry for the other type only) x 4 positions (single primary, Resources member, SoftCollection/WrapperCollection member, included) x 3 selections x 2 data requests for the second type (which shares field names with t); plus every non-empty subset obtained through the URL parser in both orders, each then marshaled as parsed and after Params.Fields[t] was replaced by every subset, x 4 include parameters x 3 relationship-data requests (data members follow the document's request, not the URL's inclusion paths). plus a 12-field type with selections of every size 0..12 in sorted, reversed and interleaved order x 3 data requests. Oracle: set arithmetic on the decoded JSON of every resource object. Every case is a distinct (selection, request, position) combination",
+		Rule: "Engine A, all choices Full, complete product: {soft,struct} x 22 selections for type t (all 16 subsets of its 4 fields, unknown name, 'id', duplicates, no entry, nil map, unknown names differing from real ones by case only) x 6 relationship-data requests (4 subsets, unknown name, entry for the other type only) x 4 positions (single primary, Resources member, SoftCollection/WrapperCollection member, included) x 3 selections x 2 data requests for the second type (which shares field names with t); plus every non-empty subset obtained through the URL parser in both orders, each then marshaled as parsed and after Params.Fields[t] was replaced by every subset, x 4 include parameters x 3 relationship-data requests (data members follow the document's request, not the URL's inclusion paths). plus a 12-field type with selections of every size 0..12 in sorted, reversed and interleaved order x 3 data requests. Every document object is first marshaled once with everything selected and all data asked for, then with the selection under test. Oracle: set arithmetic on the decoded JSON of every resource object. Every case is a distinct (selection, request, position) combination",
 		Harnesses: []Harness{
 			{Name: "C04/doc", Body: c04Body},
 			{Name: "C04/parsed", Body: c04Parsed},
